@@ -242,7 +242,7 @@ func gridHistories(sc Scenario, thorough bool) [][]int {
 	}
 	provs := []string{"P1", "P2", "B"}
 	bname := func(g int) string { return fmt.Sprintf("T1,1,%d,1,%s", g, provs[g-1]) }
-	maxB, maxGap := int64(10), int64(6)
+	maxB, maxGap := int64(8), int64(5)
 	staggers := []int64{0, 1}
 	if thorough {
 		maxB, maxGap = 14, 9
